@@ -14,7 +14,7 @@
    device's observation sequence is decided per pair of runs of the real schedulers (code 91) and,
    for adapters / EPICS records, on the real adapter classes.  Property theorems only. *)
 From TV Require Import Base Gen.SourceConsts Model.Topics Model.Wiring Model.Ticker Model.Component Model.Sim
-  Model.SimTime Proofs.TopicsP Proofs.SimP Proofs.FlattenP Proofs.NonInterfP Proofs.NonInterfLoopP Proofs.SimTimeP.
+  Model.SimTime Proofs.TopicsP Proofs.SimP Proofs.FlattenP Proofs.NonInterfP Proofs.FrameP Proofs.NonInterfLoopP Proofs.SimTimeP.
 Open Scope Z_scope.
 
 Theorem C10_topics_disjoint : forall a b,
@@ -45,7 +45,7 @@ Theorem C10_tick_noninterference : forall cfg cfg' devf inner inner' (isX : comp
   let l' := level_of cfg' lv in
   l_order l = filter (fun ck : comp * ckind => negb (isX (fst ck))) (l_order l') ->
   l_conns l = filter (oldc isX) (l_conns l') ->
-  (forall ck, In ck (l_order l') -> snd ck = KDev) ->
+  (forall ck, In ck (l_order l') -> okkind inner' isX lv ck) ->
   (forall k, In k (l_conns l') -> isX (out_comp k) = isX (in_comp k)) ->
   isX ext_id = false -> isX exp_id = false ->
   (forall c, isX c = false -> memb c roots' = memb c roots) ->
@@ -58,20 +58,28 @@ Proof. exact tick_noninterference. Qed.
 (* whole runs: the master in simulation time (Model/SimTime.v: initial tick, then always the earliest
    pending callbacks, up to a horizon; compared with the real-time master model on every generated
    case it applies to, code 55).  A flat simulation and the same simulation extended by a
-   disconnected part X of ANY behaviour -- its own callbacks at any times, hence extra ticks and
-   merged ticks -- : when the extended run is complete, so is the base run with the same number of
+   disconnected part X of ANY behaviour -- devices and whole system simulations nested to any depth,
+   their own callbacks at any times, hence extra ticks and merged ticks -- : when the extended run is complete, so is the base run with the same number of
    steps, and every base device has observed exactly the same sequence of (time, inputs); the
    states of everything outside X agree. *)
-Theorem C10_run_noninterference : forall cfg cfg' devf (isX : comp -> bool),
+Theorem C10_run_noninterference : forall cfg cfg' devf (isX : comp -> bool) fuel,
   l_order (level_of cfg top) = filter (fun ck : comp * ckind => negb (isX (fst ck))) (l_order (level_of cfg' top)) ->
   l_conns (level_of cfg top) = filter (oldc isX) (l_conns (level_of cfg' top)) ->
-  (forall ck, In ck (l_order (level_of cfg' top)) -> snd ck = KDev) ->
+  (forall ck, In ck (l_order (level_of cfg' top)) -> xkind cfg' isX fuel ck) ->
   (forall k, In k (l_conns (level_of cfg' top)) -> isX (out_comp k) = isX (in_comp k)) ->
   isX ext_id = false -> isX exp_id = false ->
-  forall n fuel initial h s1' o1',
+  forall n initial h s1' o1',
     sim_run cfg' devf n fuel initial h = (s1', o1', true) ->
     exists s1, sim_run cfg devf n fuel initial h = (s1, filter (notX isX) o1', true) /\ srel isX top s1 s1'.
-Proof. exact run_noninterference. Qed.
+Proof. intros cfg cfg' devf isX fuel Hord Hcon. exact (run_noninterference cfg cfg' devf isX Hord Hcon fuel). Qed.
+
+(* [xkind]: a component of the extended top level is a device, or a system simulation that
+   belongs to the added part with its whole subtree (any depth).  A nested tick touches only its
+   own subtree in the model: *)
+Theorem C10_system_footprint : forall cfg devf f lv time chg s,
+  let '(s2, _, _, ob) := on_tick_level cfg devf f lv time chg s in
+  framed (devices_below cfg f lv) (levels_below cfg f lv) s s2 ob.
+Proof. exact on_tick_level_framed. Qed.
 
 (* the same for the master model with real time (Model/Sim.v [simulate_full], the model every
    whole-simulation run of the real schedulers is compared with), at speed 1, no interrupts, devices
@@ -93,12 +101,14 @@ Proof.
   intros cfg cfg' devf isX Hord Hcon Hk Hsep Hext Hexp Hwell n fuel initial t_end Hfin.
   assert (Hflat : forall ck, In ck (l_order (level_of cfg top)) -> snd ck = KDev).
   { intros ck Hi. rewrite Hord in Hi. apply filter_In in Hi. apply Hk. apply Hi. }
+  assert (Hxk : forall ck, In ck (l_order (level_of cfg' top)) -> xkind cfg' isX fuel ck).
+  { intros ck Hi. unfold xkind. rewrite (Hk ck Hi). exact I. }
   pose proof (master_is_sim_loop cfg' devf Hk Hwell fuel initial t_end n) as H'.
   pose proof (master_is_sim_loop cfg devf Hflat Hwell fuel initial t_end n) as H.
   cbv zeta in H, H'.
   destruct (sim_run cfg' devf n fuel initial (initial + t_end)) as [[s1' o1'] fin'] eqn:E'.
   cbn [snd] in Hfin. subst fin'.
-  destruct (run_noninterference cfg cfg' devf isX Hord Hcon Hk Hsep Hext Hexp n fuel initial (initial + t_end) s1' o1' E') as [s1 [E _]].
+  destruct (run_noninterference cfg cfg' devf isX Hord Hcon fuel Hxk Hsep Hext Hexp n initial (initial + t_end) s1' o1' E') as [s1 [E _]].
   rewrite E in H. destruct H as [_ H]. destruct H' as [_ H']. rewrite H, H'. reflexivity.
 Qed.
 
@@ -124,3 +134,26 @@ Example C10_example :
   let '(_, _, ob') := tick_with [(1%positive, l')] dev (fun _ _ _ s => (s, [], None, [])) 1 5 [7%positive; 3%positive] [] s_init in
   filter (notX (fun c => Pos.leb 7 c)) ob' = ob /\ length ob = 2%nat /\ length ob' = 4%nat.
 Proof. vm_compute. repeat split; reflexivity. Qed.
+
+(* non-vacuity with a nested added part: the system simulation 7 (level 2) contains the periodic
+   device 8 and the inner system 9 (level 3) with device 10 *)
+Example C10_nested_part_example :
+  let dev : devfun := fun c n t inp => ([(1%positive, Zpos c + n)],
+                        if Pos.eqb c 3 then Some (t + 10) else if Pos.eqb c 8 then Some (t + 4) else if Pos.eqb c 10 then Some (t + 7) else None) in
+  let l := {| l_order := [(3%positive, KDev); (4%positive, KDev)]; l_conns := [(3, 1, 4, 1)%positive] |} in
+  let cfg' := [(1%positive, {| l_order := [(7%positive, KSys 2); (3%positive, KDev); (4%positive, KDev)]; l_conns := [(3, 1, 4, 1)%positive] |});
+               (2%positive, {| l_order := [(8%positive, KDev); (9%positive, KSys 3)]; l_conns := [] |});
+               (3%positive, {| l_order := [(10%positive, KDev)]; l_conns := [] |})] in
+  let isX := fun c => Pos.leb 7 c in
+  (forall ck, In ck (l_order (level_of cfg' top)) -> xkind cfg' isX 4 ck) /\
+  let '(_, ob, fin) := sim_run [(1%positive, l)] dev 60 4 0 20 in
+  let '(_, ob', fin') := sim_run cfg' dev 60 4 0 20 in
+  fin = true /\ fin' = true /\ filter (notX isX) ob' = ob /\ length ob = 6%nat /\ (length ob > 0)%nat /\ (length ob' > length ob)%nat.
+Proof.
+  split.
+  - intros ck [E|[E|[E|[]]]]; subst ck; unfold xkind; cbn [snd fst]; try exact I.
+    split; [reflexivity|]. split.
+    + vm_compute. intros d [E|[E|[]]]; subst d; reflexivity.
+    + vm_compute. intros [E|[E|[]]]; discriminate.
+  - vm_compute. repeat split; try reflexivity; lia.
+Qed.
